@@ -244,6 +244,8 @@ pub struct Ctx {
     pub inconclusive: Vec<String>,
     /// (counter, minimum) demands, evaluated by the driver on the merged counters
     pub requirements: Vec<(String, u64)>,
+    /// named maxima (merged by max across shards), e.g. the largest deviation observed from an oracle
+    pub maxima: BTreeMap<String, f64>,
 }
 
 impl Ctx {
@@ -273,6 +275,13 @@ impl Ctx {
             cur_case: 0,
             inconclusive: Vec::new(),
             requirements: Vec::new(),
+            maxima: BTreeMap::new(),
+        }
+    }
+    pub fn observe_max(&mut self, key: &str, v: f64) {
+        let e = self.maxima.entry(key.to_string()).or_insert(f64::NEG_INFINITY);
+        if v > *e {
+            *e = v;
         }
     }
     pub fn quick(&self) -> bool {
@@ -524,6 +533,7 @@ fn write_child_result(ctx: &Ctx, out: &Path) {
         "info": ctx.info,
         "inconclusive": ctx.inconclusive,
         "requirements": ctx.requirements.iter().map(|(k, m)| json!([k, m])).collect::<Vec<_>>(),
+        "maxima": ctx.maxima,
     });
     std::fs::write(out, serde_json::to_vec(&v).unwrap()).unwrap();
     let mut hb = Vec::with_capacity(ctx.distinct.len() * 8);
@@ -682,6 +692,9 @@ pub fn driver_main(prop: &Prop, opts: &DriverOpts) -> i32 {
     for (k, v) in &merged.info {
         println!("   {:<58} {}", k, v);
     }
+    for (k, v) in &merged.maxima {
+        println!("   max {:<54} {:e}", k, v);
+    }
     for (key, n) in &merged.known_hits {
         let text = merged.known.iter().find(|k| &k.key == key).map(|k| k.text.clone()).unwrap_or_default();
         println!("KNOWN-FINDING: property={} {} ({} occurrence(s) this run) {}", prop.id, key, n, text);
@@ -791,6 +804,13 @@ fn merge_child(m: &mut Ctx, v: &Value, out: &Path) {
             m.inconclusive.push(s.as_str().unwrap_or("").to_string());
         }
     }
+    if let Some(o) = v["maxima"].as_object() {
+        for (k, x) in o {
+            if let Some(x) = x.as_f64() {
+                m.observe_max(k, x);
+            }
+        }
+    }
     if let Some(a) = v["requirements"].as_array() {
         for r in a {
             let k = (r[0].as_str().unwrap_or("").to_string(), r[1].as_u64().unwrap_or(0));
@@ -826,6 +846,9 @@ fn write_evidence(prop: &Prop, m: &Ctx, profiles: &[&str], nshards: usize, disti
     coverage.insert("child_shards_per_profile".into(), json!(nshards));
     if !m.info.is_empty() {
         coverage.insert("info".into(), json!(m.info));
+    }
+    if !m.maxima.is_empty() {
+        coverage.insert("maxima_observed".into(), json!(m.maxima));
     }
     if !m.known_hits.is_empty() {
         coverage.insert("known_findings_reproduced".into(), json!(m.known_hits));
